@@ -21,6 +21,13 @@ either of the first two).  Monitors:
   stream.exact       the peer parsed (reference reader) exactly the concatenation of what the callable returned / the body
   stream.stored      flow.*.raw_content is None when store_streamed_bodies is off, the relayed bytes when on
   relay.buffered     buffered messages arrive whole and are kept in the flow
+
+HTTP/2 legs (30 % of the cases, run_h2_case): a streamed response towards an HTTP/2 client, or a streamed request towards an
+HTTP/2 origin (vf/peers_c07_h2.py, h2 library), where the HTTP/2 peer announces a tiny SETTINGS_INITIAL_WINDOW_SIZE (1 .. 5000)
+and re-opens its stream window in random increments of 1..k bytes (k in 1..400, one WINDOW_UPDATE per segment) while the
+HTTP/1 side delivers the body in small segments, so mitmproxy's per-stream send queue holds several streamed chunks
+(M3 reads the queue depth of every BufferedH2Connection).  stream.exact / stream.input / stream.stored / m3.streaming apply:
+the h2 peer must receive exactly the (transformed) bytes in order, followed by a clean END_STREAM.
 """
 import re
 
@@ -34,12 +41,12 @@ from vf.ref import http1 as ref
 PROPERTY = "C07"
 LEVEL = "exploration"
 ENGINE = "sansio"
-BUDGET = {"quick": (1100, 20), "thorough": (80000, 230)}
+BUDGET = {"quick": (800, 19), "thorough": (80000, 230)}
 WORKERS = {"quick": 4, "thorough": 16}
 REQUIRED = [
     "limit.error", "limit.client", "limit.not_forwarded", "limit.exact", "m3.bound", "m3.streaming",
     "stream.engaged", "stream.input", "stream.exact", "stream.stored", "relay.buffered", "dir.request.abort", "dir.response.abort",
-    "dir.request.stream", "dir.response.stream",
+    "dir.request.stream", "dir.response.stream", "stream.exact.h2", "h2.backpressure_cases.h2-client", "h2.backpressure_cases.h2-server",
 ]
 TECHNIQUE = "runtime monitoring: sans-io exploration with a per-step buffer-length hook on the live layer graph + independent wire reader and threshold model"
 RULE = (
@@ -47,14 +54,17 @@ RULE = (
     "{Content-Length, chunked, close-delimited}, body size picked around both thresholds, optional addon stream callable, segmentation, "
     "schedule); signature = per message (direction, framing, relation of size to limit and to stream threshold, action kind, reference "
     "class) + option vector (limit set, threshold set, store); non-trivial iff some message is refused or streamed (a threshold is crossed "
-    "or an addon enabled streaming)"
+    "or an addon enabled streaming); HTTP/2 legs: signature = (which side speaks h2, mode, framing, size vs threshold and vs initial window, action, "
+    "class, window class, increment class, send-queue depth (capped at 3), store); non-trivial iff the body is streamed AND the send queue held >= 2 "
+    "chunks while the peer granted credit"
 )
 ASSUMPTIONS = [
     "addon stream callables that change the length are used only with chunked / close-delimited framing (DESIGN 3.3: framing-consistent addons)",
     "'known to exceed' = Content-Length at the head, or bytes in the body buffer; an unknown-length body that is already being streamed is not 'known' (nothing is buffered)",
     "'one received chunk' is bounded by the largest TCP segment delivered so far on that connection",
     "after an interim '100 Continue' was relayed a bare connection close counts as the client's error (DESIGN 3.4)",
-    "HTTP/1 in both directions; plain http (no CONNECT/TLS)",
+    "HTTP/1 in both directions for the limit clauses; HTTP/2 on one side for the streaming clauses (no limit set there); plain http (no CONNECT/TLS)",
+    "HTTP/2 legs run with http2_ping_keepalive=0 (the driver completes wakeups at once)",
 ]
 LEVEL_TEXT = (
     "Exploration: generated conversations with body sizes on and around both thresholds are run through the real layer stack under many "
@@ -549,14 +559,231 @@ def check_relay(ctx, d, wit, direction, it, rec, cls, calls, observed, wire_stat
     return True
 
 
+# ---------------------------------------------------------------------------------------------------------------
+# HTTP/2 legs: streamed bodies towards an HTTP/2 peer that reads slowly (tiny stream window, small credit increments)
+# ---------------------------------------------------------------------------------------------------------------
+
+def h2_queue_depth(drv):
+    """M3: longest per-stream send queue of any BufferedH2Connection in the live layer graph."""
+    best = 0
+    for lay in drv.context.layers:
+        if not isinstance(lay, HttpLayer):
+            continue
+        for v in list(lay.connections.values()):
+            obj = getattr(v, "child_layer", v)
+            conn = getattr(obj, "h2_conn", None)
+            if conn is not None:
+                for q in conn.stream_buffers.values():
+                    best = max(best, len(q))
+    return best
+
+
+def run_h2_case(ctx, opts):
+    from vf.peers_c07_h2 import H2ClientPeer, H2Request, H2ServerPeer
+
+    r = ctx.rng
+    variant = r.choice(["h2-client", "h2-server"])
+    mode = r.choice(g.MODES)
+    store = r.random() < 0.4
+    stream_opt = r.choice([None, "0", "1", "10", "100"])
+    T = g.ref_size(stream_opt)
+    W0 = r.choice([1, 2, 5, 10, 17, 40, 100, 1000, 5000])
+    inc_max = r.choice([1, 2, 3, 4, 7, 16, 50, 400])
+    n = r.choice([0, 1, W0, W0 + 1, r.randint(2, 60), r.randint(40, 400), r.randint(300, 1800)])
+    n = min(n, 100 + 60 * inc_max)  # bounds the number of WINDOW_UPDATE steps of a case
+    direction = "response" if variant == "h2-client" else "request"
+    framing = r.choice(["cl", "chunked", "chunked", "eof"]) if direction == "response" else r.choice(["cl", "chunked", "chunked"])
+    names = [a for a, (lp, _) in g.ACTIONS.items() if lp or framing in ("chunked", "eof")]
+    action = r.choice(names) if (stream_opt is None or r.random() < 0.4) else None
+    plan = {"framing": framing, "n": n, "action": action}
+    none_plan = {"framing": "none", "n": 0, "action": None}
+    seg_mode = r.choice(["fixed", "fixed", "random", "whole"])
+    fixed = r.choice([2, 3, 8, 16, 50, 200])
+    # http2_ping_keepalive=0: the sans-io driver completes wakeups at once, a keep-alive timer would never let the run settle
+    opts.update(body_size_limit=None, stream_large_bodies=stream_opt, store_streamed_bodies=store, http2_ping_keepalive=0)
+    cls = g.classify_plan(plan, None, T)
+
+    if direction == "response":
+        tag = b"t0-%06x" % r.getrandbits(24)
+        rq = {"tag": tag, "method": "GET"}
+        rs = g.build_response(r, tag, plan)
+        item = {"req": rq, "resp": rs, "rq_plan": none_plan, "rs_plan": plan}
+    else:
+        rq = g.build_request(r, 0, mode, plan, expect100=False)
+        tag = rq["tag"]
+        item = {"req": rq, "resp": None, "rq_plan": plan, "rs_plan": none_plan}
+    body = rs["body"] if direction == "response" else rq["body"]
+    addon = StreamAddon({"items": [item]})
+    obs = {"depth": 0, "buf_while_streaming": None}
+
+    def m3(drv):
+        ctx.count("m3.evaluations")
+        obs["depth"] = max(obs["depth"], h2_queue_depth(drv))
+        for lay in drv.context.layers:
+            if isinstance(lay, HttpLayer):
+                for s_ in list(lay.streams.values()):
+                    f = getattr(s_, "flow", None)
+                    if f is None or store:
+                        continue
+                    if direction == "request" and f.request.stream and len(s_.request_body_buf) and obs["buf_while_streaming"] is None:
+                        obs["buf_while_streaming"] = (drv.step_no, len(s_.request_body_buf))
+                    if direction == "response" and f.response is not None and f.response.stream and len(s_.response_body_buf) and obs["buf_while_streaming"] is None:
+                        obs["buf_while_streaming"] = (drv.step_no, len(s_.response_body_buf))
+
+    def grant(owed):
+        out = []
+        while owed > 0:
+            k = min(owed, r.randint(1, inc_max))
+            out.append(k)
+            owed -= k
+        return out
+
+    client = sansio.make_client(mode)
+    h2_server = []
+    if direction == "response":
+        client.alpn = b"h2"
+
+        def responder(k, msg, peer):
+            return rs["raw"], rs["close_after"]
+
+        class Origin(peers.H1ServerPeer):
+            def _reparse(self_):
+                status, msgs, rest = ref.parse_requests(bytes(self_.received))
+                if msgs and not self_.answered:
+                    self_.answered = 1
+                    self_.requests = msgs
+                    for s_ in g.segments(rs["raw"], r, seg_mode, fixed):
+                        self_.send(s_)
+                    if rs["close_after"]:
+                        self_.close()
+                        self_.closed = True
+
+        server_factory = lambda drv, conn: Origin(responder, r, "whole")
+    else:
+
+        def h2_responder(sid, headers, data):
+            return [(b":status", b"200"), (b"x-tag", tag), (b"content-length", b"2")], b"ok"
+
+        def server_factory(drv, conn):
+            conn.alpn = b"h2"
+            p = H2ServerPeer(h2_responder, initial_window=W0, grant=grant)
+            h2_server.append(p)
+            return p
+
+    d = sansio.Driver(
+        h1case.top_factory(mode),
+        client=client,
+        options=opts,
+        rng=r,
+        addons=[h1case.ForceHttp(), addon],
+        server_factory=server_factory,
+        schedule=r.choice(["random", "random", "random", "fifo"]),
+        snapshot=sansio.http_snapshot,
+        m3=[m3],
+        max_steps=20000,
+    )
+    if mode == "transparent":
+        d.context.server.address = ("example.com", 80)
+    if direction == "response":
+        cpeer = H2ClientPeer(
+            [H2Request([(b":method", b"GET"), (b":scheme", b"http"), (b":authority", b"example.com"), (b":path", b"/" + tag)])],
+            initial_window=W0, grant=grant, validate_inbound=False,
+        )
+        d.attach_client_peer(cpeer)
+    else:
+        d.attach_client_peer(sansio.ScriptPeer(g.segments(rq["raw"], r, seg_mode, fixed)))
+    d.start()
+    d.run()
+    d.teardown()
+    if d.budget_exceeded:
+        ctx.count("inconclusive_cases")
+        return None
+    for e in d.exceptions:
+        ctx.seen("layer_exceptions", f"{e[0]}@{e[1]}")
+
+    flow = None
+    hook_names = []
+    for step, name, hook, snap in d.hooks:
+        f = getattr(hook, "flow", None)
+        if isinstance(f, http.HTTPFlow):
+            flow = f
+            hook_names.append(name)
+    if direction == "response":
+        st = cpeer.streams.get(1) or {"headers": None, "data": b"", "ended": False, "reset": None}
+        perr, wu = cpeer.protocol_errors, cpeer.window_updates
+    else:
+        sp = h2_server[0] if h2_server else None
+        sts = list(sp.streams.values()) if sp else []
+        st = sts[0] if sts else {"headers": None, "data": b"", "ended": False, "reset": None}
+        perr, wu = (sp.protocol_errors, sp.window_updates) if sp else ([], 0)
+    calls = addon.calls.get((tag, "req" if direction == "request" else "resp"))
+    streamed_expected = cls == "stream"
+    expected = body
+    if streamed_expected and calls is not None:
+        expected = b"".join(p_ for _, pieces in calls for p_ in pieces)
+
+    def wit(**kw):
+        w = {"proto": variant, "mode": mode, "options": {"stream_large_bodies": stream_opt, "store_streamed_bodies": store}, "plan": plan, "class": cls, "initial_window": W0,
+             "max_increment": inc_max, "segmentation": (seg_mode, fixed), "hooks": hook_names, "exceptions": [e[:3] for e in d.exceptions], "max_send_queue_depth": obs["depth"],
+             "window_updates": wu, "peer_protocol_errors": perr[:2], "got_len": len(st["data"]), "want_len": len(expected), "ended": st["ended"], "reset": st["reset"]}
+        w.update(kw)
+        return w
+
+    ctx.count("h2." + variant)
+    kind = "stream.exact" if streamed_expected else "relay.buffered"
+    ctx.count(kind)
+    ctx.count(kind + ".h2")
+    if streamed_expected:
+        ctx.count("dir.%s.stream" % direction)
+    problem = None
+    if perr:
+        problem = "the h2 library refuses what mitmproxy sent"
+    elif st["headers"] is None:
+        problem = "message never reached the HTTP/2 peer"
+    elif st["data"] != expected:
+        i = next((k for k, (a, b) in enumerate(zip(st["data"], expected)) if a != b), min(len(st["data"]), len(expected)))
+        problem = f"HTTP/2 peer received different bytes (first difference at offset {i})"
+    elif not st["ended"] or st["reset"] is not None:
+        problem = "stream not ended cleanly although the whole body was relayed"
+    if problem:
+        ctx.violation(kind, wit(problem=problem, got=st["data"][max(0, 0):120], want=expected[:120]))
+    elif streamed_expected:
+        if action not in (None, "true"):
+            ctx.count("stream.input")
+            ins = [a for a, _ in (calls or [])]
+            if b"".join(ins) != body or not ins or ins[-1] != b"" or any(a == b"" for a in ins[:-1]):
+                ctx.violation("stream.input", wit(problem="callable inputs are not the received body followed by one final b''", input_lens=[len(a) for a in ins][:20]))
+        ctx.count("stream.stored")
+        msgobj = flow.request if (flow is not None and direction == "request") else (flow.response if flow is not None else None)
+        kept = msgobj.raw_content if msgobj is not None else None
+        if ("request" if direction == "request" else "response") in hook_names:
+            if store and kept != expected:
+                ctx.violation("stream.stored", wit(problem="store_streamed_bodies on but flow content differs from relayed bytes", kept_len=None if kept is None else len(kept)))
+            if not store and kept is not None:
+                ctx.violation("stream.stored", wit(problem="store_streamed_bodies off but flow keeps content", kept_len=len(kept)))
+    ctx.count("m3.streaming")
+    if obs["buf_while_streaming"]:
+        ctx.violation("m3.streaming", wit(direction=direction, step=obs["buf_while_streaming"][0], buffered=obs["buf_while_streaming"][1]))
+    backpressure = obs["depth"] >= 2 and wu > 0
+    if backpressure:
+        ctx.count("h2.backpressure_cases")
+        ctx.count("h2.backpressure_cases." + variant)
+    wclass = "tiny" if W0 <= 40 else "small"
+    iclass = "1" if inc_max == 1 else "few" if inc_max <= 7 else "many"
+    sig = (variant, mode.split(":")[0], framing, rel(n, T), rel(n, W0), action or "-", cls, wclass, iclass, min(obs["depth"], 3), store)
+    sample = {"proto": variant, "mode": mode, "plan": plan, "class": cls, "initial_window": W0, "max_increment": inc_max, "segmentation": (seg_mode, fixed),
+              "max_send_queue_depth": obs["depth"], "window_updates": wu, "hooks": hook_names}
+    return sig, bool(streamed_expected and backpressure), sample
+
+
 def run(ctx):
     tctx, _ = sansio.addon_context()
     opts = tctx.options
-    keys = ("body_size_limit", "stream_large_bodies", "store_streamed_bodies")
+    keys = ("body_size_limit", "stream_large_bodies", "store_streamed_bodies", "http2_ping_keepalive")
     defaults = {k: getattr(opts, k) for k in keys}
     try:
         for i in ctx.cases():
-            res = ctx.guard(run_case, ctx, opts, what="c07 case")
+            res = ctx.guard(run_h2_case if ctx.rng.random() < 0.3 else run_case, ctx, opts, what="c07 case")
             if res is None:
                 ctx.case(("aborted",), False)
                 continue
